@@ -1,7 +1,7 @@
 (* C02 — The screen is always a well-formed W x H grid with an in-range cursor.
    Statements only. *)
 From Coq Require Import List ZArith Bool.
-From Termemu Require Import Base Style Screen Parser Term ScreenInv TermInv HistProofs.
+From Termemu Require Import Base Style Screen Parser Term ScreenInv TermInv HistProofs GlyphInv.
 Import ListNotations.
 Open Scope Z_scope.
 
@@ -38,3 +38,12 @@ Example C02_example :
   let ops := [HFeed [228;184;173;27;91;50;59;51;114;10;10;10;97]; HResize 2 1; HFeed [240;159;144;185;27;91;53;83]; HResize 5 4] in
   hist_ok ops /\ sW (tmain (fst (run_hist (fun _ => 2) false (init_term 4 3) ops))) = 5.
 Proof. exact hist_example. Qed.
+
+(* glyph structure: after every prefix of every history every row of both buffers is a sequence of
+   whole glyphs — a head cell of width w >= 1 followed by exactly w-1 continuation cells (no half
+   character, no orphan continuation cell) *)
+Theorem C02_glyphs : forall wc grid w h ops n, 1 <= w -> 1 <= h -> hist_ok ops ->
+  let t := fst (run_hist wc grid (init_term w h) (firstn n ops)) in
+  Forall row_ok (rows (tmain t)) /\ Forall row_ok (rows (talt t)).
+Proof. exact glyphs_every_prefix. Qed.
+Print Assumptions C02_glyphs.
